@@ -260,3 +260,1251 @@ Proof.
     + rewrite compile_link_msg. reflexivity.
     + reflexivity.
 Qed.
+
+Theorem remove_equiv rx dflt src c d c' rq :
+  cf_compile dflt src = Some c -> is_remove d = true -> zero_free d = true -> cf_apply d c = Some c' ->
+  exists c'', cf_compile dflt (cf_rewrite d src) = Some c'' /\ cf_outcome rx c' rq = cf_outcome rx c'' rq.
+Proof. intros. exists c'. split; [eapply remove_structural; eassumption|reflexivity]. Qed.
+
+(* ================= updates: the id loop in closed form ================= *)
+
+Definition spec_map (sp : idspec) (f : crule -> crule) (rs : list crule) : list crule :=
+  map (fun r => if spec_has sp (cr_id r) then f r else r) rs.
+
+Lemma upd_first_map n f rs : forall rs', n <> 0 -> uniq rs -> upd_first n f rs = Some rs' ->
+  rs' = map (fun r => if cr_id r =? n then f r else r) rs.
+Proof.
+  induction rs as [|r t IH]; intros rs' Hn Hu H; cbn [upd_first map uniq] in *; [discriminate|].
+  destruct Hu as [H1 H2]. destruct (N.eqb_spec (cr_id r) n) as [E|E].
+  - inversion H; subst rs'. f_equal. symmetry. rewrite <- (map_id t) at 2. apply map_ext_in. intros x Hx.
+    destruct (N.eqb_spec (cr_id x) n) as [E'|_]; [|reflexivity]. exfalso.
+    destruct H1 as [H1|H1]; [congruence|]. rewrite E in H1. exact (has_id_false_in _ _ H1 _ Hx E').
+  - destruct (upd_first n f t) as [t'|] eqn:Et; [|discriminate]. inversion H; subst rs'.
+    rewrite (IH t' Hn H2 eq_refl). reflexivity.
+Qed.
+
+Lemma upd_first_none n f rs : upd_first n f rs = None ->
+  map (fun r => if cr_id r =? n then f r else r) rs = rs.
+Proof.
+  induction rs as [|r t IH]; cbn [upd_first map]; [reflexivity|].
+  destruct (cr_id r =? n); [discriminate|]. destruct (upd_first n f t); [discriminate|].
+  intros _. rewrite IH; reflexivity.
+Qed.
+
+Lemma in_rng_same a id : in_rng a a id = (id =? a).
+Proof.
+  unfold in_rng. destruct (N.eqb_spec id a) as [E|E].
+  - subst. rewrite N.leb_refl. reflexivity.
+  - destruct (N.leb_spec a id), (N.leb_spec id a); try reflexivity. lia.
+Qed.
+
+Lemma uniq_spec_map sp f rs : (forall r, cr_id (f r) = cr_id r) -> uniq rs -> uniq (spec_map sp f rs).
+Proof.
+  intros Hf Hu. unfold spec_map. apply uniq_map; [|exact Hu].
+  intro r. destruct (spec_has sp (cr_id r)); [apply Hf|reflexivity].
+Qed.
+
+Lemma upd_specs_fold single f l : forall rs rs',
+  (forall r, cr_id (f r) = cr_id r) -> forallb spec_zero_free l = true -> uniq rs ->
+  upd_specs single f l rs = Some rs' -> rs' = fold_left (fun rs sp => spec_map sp f rs) l rs.
+Proof.
+  induction l as [|sp l IH]; intros rs rs' Hf Hz Hu H; cbn [upd_specs fold_left forallb] in *.
+  - inversion H; reflexivity.
+  - apply andb_true_iff in Hz as [Hz1 Hz]. unfold spec_zero_free in Hz1. apply negb_true_iff in Hz1.
+    destruct sp as [n|a b]; cbn [spec_has] in Hz1.
+    + assert (n <> 0) as Hn by (apply N.eqb_neq in Hz1; congruence).
+      destruct (upd_first n f rs) as [rs1|] eqn:E.
+      * pose proof (upd_first_map n f rs rs1 Hn Hu E) as E1.
+        assert (rs1 = spec_map (IdOne n) f rs) as E2 by exact E1.
+        rewrite <- E2. apply IH; try assumption. rewrite E2. apply uniq_spec_map; assumption.
+      * destruct single; [discriminate|].
+        assert (spec_map (IdOne n) f rs = rs) as E2 by (apply (upd_first_none n f rs E)).
+        rewrite E2. apply IH; assumption.
+    + destruct (N.eqb_spec a b) as [Eab|Eab].
+      * subst b. rewrite in_rng_same in Hz1.
+        assert (a <> 0) as Hn by (apply N.eqb_neq in Hz1; congruence).
+        destruct (upd_first a f rs) as [rs1|] eqn:E; [|discriminate].
+        pose proof (upd_first_map a f rs rs1 Hn Hu E) as E1.
+        assert (rs1 = spec_map (IdRange a a) f rs) as E2.
+        { rewrite E1. unfold spec_map. apply map_ext. intro r. cbn [spec_has]. rewrite in_rng_same. reflexivity. }
+        rewrite <- E2. apply IH; try assumption. rewrite E2. apply uniq_spec_map; assumption.
+      * destruct (b <? a); [discriminate|].
+        change (upd_range a b f rs) with (spec_map (IdRange a b) f rs) in H.
+        apply IH; try assumption. apply uniq_spec_map; assumption.
+Qed.
+
+Lemma uniq_fold_spec_map f l : forall rs,
+  (forall r, cr_id (f r) = cr_id r) -> uniq rs -> uniq (fold_left (fun rs sp => spec_map sp f rs) l rs).
+Proof.
+  induction l as [|sp l IH]; intros rs Hf Hu; cbn [fold_left]; [exact Hu|].
+  apply IH; [exact Hf|]. apply uniq_spec_map; assumption.
+Qed.
+
+(* the source-level rewriting of one id field commutes with compilation *)
+Lemma compile_src_upd dflt (p : N -> bool) g f src :
+  p 0 = false ->
+  (forall id ph h ch, compile_item dflt (SRule id ph (g h) ch) = f (compile_item dflt (SRule id ph h ch))) ->
+  map (compile_item dflt) (map (src_upd (fun id _ => p id) g) src)
+  = map (fun r => if p (cr_id r) then f r else r) (map (compile_item dflt) src).
+Proof.
+  intros H0 Hg. rewrite !map_map. apply map_ext. intro it.
+  rewrite compile_item_id. destruct it as [id ph h ch|nm]; cbn [src_upd].
+  - destruct (p id); [apply Hg|reflexivity].
+  - rewrite H0. reflexivity.
+Qed.
+
+Lemma compile_fold_upd dflt g f l : forall src,
+  forallb spec_zero_free l = true ->
+  (forall id ph h ch, compile_item dflt (SRule id ph (g h) ch) = f (compile_item dflt (SRule id ph h ch))) ->
+  map (compile_item dflt) (fold_left (fun s sp => map (src_upd (fun id _ => spec_has sp id) g) s) l src)
+  = fold_left (fun rs sp => spec_map sp f rs) l (map (compile_item dflt) src).
+Proof.
+  induction l as [|sp l IH]; intros src Hz Hg; cbn [fold_left forallb] in *; [reflexivity|].
+  apply andb_true_iff in Hz as [Hz1 Hz]. rewrite (IH _ Hz Hg). f_equal.
+  unfold spec_map. apply (compile_src_upd dflt (spec_has sp) g f src); [|exact Hg].
+  unfold spec_zero_free in Hz1. apply negb_true_iff in Hz1. exact Hz1.
+Qed.
+
+(* ================= links: closed form of applyParsedActions ================= *)
+
+Definition ctls_of (acts : list action) : list ctl :=
+  flat_map (fun a => match a with ACtl c => [c] | _ => [] end) acts.
+Definition disrs_of (acts : list action) : list disr :=
+  flat_map (fun a => match a with ADisr d => [d] | _ => [] end) acts.
+Definition flows_of (acts : list action) : list bytes :=
+  flat_map (fun a => match a with ASkipAfter m => [m] | _ => [] end) acts.
+Fixpoint status_of (acts : list action) (cur : N) : N :=
+  match acts with
+  | [] => cur
+  | AStatus n :: r => status_of r n
+  | _ :: r => status_of r cur
+  end.
+
+Definition mrg (d : option disr) (acts : list action) : list action :=
+  match d with None => acts | Some x => merge_defaults acts x end.
+
+Lemma fold_act_closed acts : forall l,
+  fold_left act_step acts l =
+  mkClink (cl_vars l) (cl_op l) (cl_nd l ++ ctls_of acts) (cl_disr l ++ disrs_of acts)
+          (cl_flow l ++ flows_of acts) (cl_tags l) (cl_msg l) (status_of acts (cl_status l)).
+Proof.
+  induction acts as [|a acts IH]; intro l.
+  - cbn. rewrite !app_nil_r. destruct l; reflexivity.
+  - cbn [fold_left]. rewrite IH.
+    destruct a; cbn [act_step cl_vars cl_op cl_nd cl_disr cl_flow cl_tags cl_msg cl_status
+                     ctls_of disrs_of flows_of flat_map status_of app];
+      rewrite <- ?app_assoc; reflexivity.
+Qed.
+
+Lemma fold_meta_closed acts : forall l,
+  fold_left meta_step acts l =
+  mkClink (cl_vars l) (cl_op l) (cl_nd l) (cl_disr l) (cl_flow l)
+          (cl_tags l ++ src_tags acts) (src_msg acts (cl_msg l)) (cl_status l).
+Proof.
+  induction acts as [|a acts IH]; intro l.
+  - cbn. rewrite app_nil_r. destruct l; reflexivity.
+  - cbn [fold_left]. rewrite IH.
+    destruct a; cbn [meta_step cl_vars cl_op cl_nd cl_disr cl_flow cl_tags cl_msg cl_status src_tags src_msg];
+      rewrite <- ?app_assoc; reflexivity.
+Qed.
+
+Lemma apply_actions_closed d acts l :
+  apply_actions d acts l =
+  mkClink (cl_vars l) (cl_op l) (cl_nd l ++ ctls_of (mrg d acts)) (cl_disr l ++ disrs_of (mrg d acts))
+          (cl_flow l ++ flows_of (mrg d acts)) (cl_tags l ++ src_tags acts) (src_msg acts (cl_msg l))
+          (status_of (mrg d acts) (cl_status l)).
+Proof.
+  unfold apply_actions. fold (mrg d acts). rewrite fold_act_closed, fold_meta_closed. reflexivity.
+Qed.
+
+(* --- list algebra of the projections --- *)
+Lemma ctls_app a b : ctls_of (a ++ b) = ctls_of a ++ ctls_of b.
+Proof. apply flat_map_app. Qed.
+Lemma disrs_app a b : disrs_of (a ++ b) = disrs_of a ++ disrs_of b.
+Proof. apply flat_map_app. Qed.
+Lemma flows_app a b : flows_of (a ++ b) = flows_of a ++ flows_of b.
+Proof. apply flat_map_app. Qed.
+Lemma status_app a : forall b s, status_of (a ++ b) s = status_of b (status_of a s).
+Proof. induction a as [|x a IH]; intros b s; [reflexivity|]. destruct x; cbn [app status_of]; apply IH. Qed.
+Lemma tags_app a b : src_tags (a ++ b) = src_tags a ++ src_tags b.
+Proof. induction a as [|x a IH]; [reflexivity|]. destruct x; cbn [app src_tags]; rewrite ?IH; reflexivity. Qed.
+Lemma msg_app a : forall b m, src_msg (a ++ b) m = src_msg b (src_msg a m).
+Proof. induction a as [|x a IH]; intros b m; [reflexivity|]. destruct x; cbn [app src_msg]; apply IH. Qed.
+
+(* filtering out (some) disruptive actions changes only the disruptive projection *)
+Section FilterDisr.
+Variable p : action -> bool.
+Hypothesis p_keeps : forall a, is_disr a = false -> p a = true.
+
+Lemma ctls_filter a : ctls_of (filter p a) = ctls_of a.
+Proof.
+  induction a as [|x a IH]; [reflexivity|]. cbn [filter].
+  destruct (p x) eqn:E; cbn [ctls_of flat_map]; fold (ctls_of a); fold (ctls_of (filter p a)); rewrite IH; [reflexivity|].
+  destruct x; try (rewrite p_keeps in E by reflexivity; discriminate). reflexivity.
+Qed.
+Lemma flows_filter a : flows_of (filter p a) = flows_of a.
+Proof.
+  induction a as [|x a IH]; [reflexivity|]. cbn [filter].
+  destruct (p x) eqn:E; cbn [flows_of flat_map]; fold (flows_of a); fold (flows_of (filter p a)); rewrite IH; [reflexivity|].
+  destruct x; try (rewrite p_keeps in E by reflexivity; discriminate). reflexivity.
+Qed.
+Lemma status_filter a : forall s, status_of (filter p a) s = status_of a s.
+Proof.
+  induction a as [|x a IH]; intro s; [reflexivity|]. cbn [filter].
+  destruct (p x) eqn:E.
+  - destruct x; cbn [status_of]; apply IH.
+  - destruct x; try (rewrite p_keeps in E by reflexivity; discriminate). cbn [status_of]. apply IH.
+Qed.
+Lemma tags_filter a : src_tags (filter p a) = src_tags a.
+Proof.
+  induction a as [|x a IH]; [reflexivity|]. cbn [filter].
+  destruct (p x) eqn:E.
+  - destruct x; cbn [src_tags]; rewrite IH; reflexivity.
+  - destruct x; try (rewrite p_keeps in E by reflexivity; discriminate). cbn [src_tags]. apply IH.
+Qed.
+Lemma msg_filter a : forall m, src_msg (filter p a) m = src_msg a m.
+Proof.
+  induction a as [|x a IH]; intro m; [reflexivity|]. cbn [filter].
+  destruct (p x) eqn:E.
+  - destruct x; cbn [src_msg]; apply IH.
+  - destruct x; try (rewrite p_keeps in E by reflexivity; discriminate). cbn [src_msg]. apply IH.
+Qed.
+End FilterDisr.
+
+Definition nonblock (a : action) : bool := negb (is_block a).
+Definition nondisr (a : action) : bool := negb (is_disr a).
+
+Lemma nonblock_keeps a : is_disr a = false -> nonblock a = true.
+Proof. destruct a as [| | |[]| | |]; cbn; congruence. Qed.
+Lemma nondisr_keeps a : is_disr a = false -> nondisr a = true.
+Proof. unfold nondisr. intro H; rewrite H; reflexivity. Qed.
+
+Lemma disrs_nondisr a : disrs_of (filter nondisr a) = [].
+Proof.
+  induction a as [|x a IH]; [reflexivity|]. cbn [filter]. destruct x; cbn [nondisr is_disr negb disrs_of flat_map app]; exact IH.
+Qed.
+
+Lemma no_disr_disrs p a : existsb is_disr a = false -> disrs_of (filter p a) = [].
+Proof.
+  induction a as [|x a IH]; intro H; [reflexivity|]. cbn [existsb] in H. apply orb_false_iff in H as [H1 H2].
+  cbn [filter]. destruct (p x); [|apply IH; exact H2].
+  destruct x; try discriminate; cbn [disrs_of flat_map app]; apply IH; exact H2.
+Qed.
+
+Lemma no_disr_disrs' a : existsb is_disr a = false -> disrs_of a = [].
+Proof. intro H. rewrite <- (filter_all (fun _ => true) a) by reflexivity. apply no_disr_disrs; exact H. Qed.
+
+Lemma no_disr_nonblockdisr a : existsb is_disr a = false -> existsb is_nonblock_disr a = false.
+Proof.
+  induction a as [|x a IH]; intro H; [reflexivity|]. cbn [existsb] in *. apply orb_false_iff in H as [H1 H2].
+  unfold is_nonblock_disr at 1. rewrite H1, (IH H2). reflexivity.
+Qed.
+
+Lemma mrg_ctls d a : ctls_of (mrg d a) = ctls_of a.
+Proof.
+  destruct d as [x|]; [|reflexivity]. unfold mrg, merge_defaults. fold nonblock.
+  destruct (existsb is_nonblock_disr a); rewrite ?ctls_app, (ctls_filter nonblock nonblock_keeps); [reflexivity|apply app_nil_r].
+Qed.
+Lemma mrg_flows d a : flows_of (mrg d a) = flows_of a.
+Proof.
+  destruct d as [x|]; [|reflexivity]. unfold mrg, merge_defaults. fold nonblock.
+  destruct (existsb is_nonblock_disr a); rewrite ?flows_app, (flows_filter nonblock nonblock_keeps); [reflexivity|apply app_nil_r].
+Qed.
+Lemma mrg_status d a s : status_of (mrg d a) s = status_of a s.
+Proof.
+  destruct d as [x|]; [|reflexivity]. unfold mrg, merge_defaults. fold nonblock.
+  destruct (existsb is_nonblock_disr a); rewrite ?status_app, (status_filter nonblock nonblock_keeps); reflexivity.
+Qed.
+
+Lemma set_vars_apply d acts l vs : apply_actions d acts (set_vars l vs) = set_vars (apply_actions d acts l) vs.
+Proof. rewrite !apply_actions_closed. reflexivity. Qed.
+
+Lemma apply_actions_vars d acts l : cl_vars (apply_actions d acts l) = cl_vars l.
+Proof. rewrite apply_actions_closed. reflexivity. Qed.
+
+(* L1: the rule written with the added targets *)
+Lemma compile_link_add_targets d items h :
+  compile_link d (src_add_targets items h) = update_target items (compile_link d h).
+Proof.
+  unfold compile_link, update_target, src_add_targets. cbn [ls_targets ls_op ls_actions].
+  rewrite !set_vars_apply. unfold set_vars at 1 3 4.
+  cbn [cl_vars cl_op cl_nd cl_disr cl_flow cl_tags cl_msg cl_status].
+  unfold parse_targets. rewrite fold_left_app. reflexivity.
+Qed.
+
+Definition no_block (acts : list action) : bool := forallb nonblock acts.
+
+Lemma exists_nonblock_app a b :
+  existsb is_nonblock_disr (a ++ b) = existsb is_nonblock_disr a || existsb is_nonblock_disr b.
+Proof. apply existsb_app. Qed.
+
+Lemma has_disr_no_block a : existsb is_disr a = true -> no_block a = true -> existsb is_nonblock_disr a = true.
+Proof.
+  induction a as [|x a IH]; intros H1 H2; [discriminate|]. cbn [existsb no_block forallb] in *.
+  apply andb_true_iff in H2 as [H2 H3]. unfold is_nonblock_disr at 1. unfold nonblock in H2. rewrite H2, andb_true_r.
+  destruct (is_disr x); [reflexivity|]. cbn [orb] in *. apply IH; assumption.
+Qed.
+
+(* L2: the rule written with the new actions (no "block" among them) *)
+Lemma compile_link_add_actions d acts h :
+  no_block acts = true ->
+  compile_link d (src_add_actions acts h) = update_action acts (compile_link d h).
+Proof.
+  intro Hnb. unfold compile_link, update_action, src_add_actions. cbn [ls_targets ls_op ls_actions].
+  set (l0 := set_vars (empty_link (Some (ls_op h))) (parse_targets (ls_targets h) [])).
+  set (O := ls_actions h).
+  destruct (existsb is_disr acts) eqn:Hd.
+  - (* the update names a disruptive action: the old ones are replaced *)
+    fold nondisr. rewrite !apply_actions_closed. unfold clear_disr.
+    cbn [cl_vars cl_op cl_nd cl_disr cl_flow cl_tags cl_msg cl_status mrg].
+    assert (disrs_of (mrg d (filter nondisr O ++ acts)) = disrs_of acts) as Ed.
+    { destruct d as [x|]; cbn [mrg].
+      - unfold merge_defaults. rewrite exists_nonblock_app, (has_disr_no_block acts Hd Hnb), orb_true_r.
+        fold nonblock. rewrite filter_app, disrs_app.
+        rewrite (no_disr_disrs nonblock (filter nondisr O)).
+        + cbn [app]. rewrite (filter_all nonblock acts); [reflexivity|].
+          intros y Hy. unfold no_block in Hnb. rewrite forallb_forall in Hnb. apply Hnb; exact Hy.
+        + clear. induction O as [|y O' IH]; [reflexivity|]. cbn [filter]. destruct y; cbn [nondisr is_disr negb existsb orb]; exact IH.
+      - rewrite disrs_app, disrs_nondisr. reflexivity. }
+    rewrite !mrg_ctls, !mrg_flows, !mrg_status, Ed.
+    rewrite ctls_app, flows_app, status_app, tags_app, msg_app.
+    rewrite (ctls_filter nondisr nondisr_keeps), (flows_filter nondisr nondisr_keeps),
+            (status_filter nondisr nondisr_keeps), (tags_filter nondisr nondisr_keeps), (msg_filter nondisr nondisr_keeps).
+    subst l0. cbn [set_vars empty_link cl_vars cl_op cl_nd cl_disr cl_flow cl_tags cl_msg cl_status app].
+    reflexivity.
+  - (* no disruptive action in the update: everything is written after the existing actions *)
+    rewrite !apply_actions_closed. cbn [cl_vars cl_op cl_nd cl_disr cl_flow cl_tags cl_msg cl_status mrg].
+    assert (disrs_of (mrg d (O ++ acts)) = disrs_of (mrg d O) ++ disrs_of acts) as Ed.
+    { rewrite (no_disr_disrs' acts Hd), app_nil_r. destruct d as [x|]; cbn [mrg].
+      - unfold merge_defaults. rewrite exists_nonblock_app, (no_disr_nonblockdisr acts Hd), orb_false_r.
+        fold nonblock. rewrite filter_app.
+        destruct (existsb is_nonblock_disr O); rewrite !disrs_app, (no_disr_disrs nonblock acts Hd); rewrite ?app_nil_r; reflexivity.
+      - rewrite disrs_app, (no_disr_disrs' acts Hd), app_nil_r. reflexivity. }
+    rewrite !mrg_ctls, !mrg_flows, !mrg_status, Ed.
+    rewrite ctls_app, flows_app, status_app, tags_app, msg_app, <- !app_assoc.
+    reflexivity.
+Qed.
+
+(* ================= C17_update_target_equiv / C17_update_action_equiv ================= *)
+
+Lemma on_head_id g r : cr_id (on_head g r) = cr_id r.
+Proof. reflexivity. Qed.
+
+Lemma upd_by_id_structural dflt src c l (g : link_src -> link_src) (gc : clink -> clink) c' :
+  (forall d h, compile_link d (g h) = gc (compile_link d h)) ->
+  cf_compile dflt src = Some c -> forallb spec_zero_free l = true ->
+  upd_specs (is_single l) (on_head gc) l c = Some c' ->
+  cf_compile dflt (fold_left (fun s sp => map (src_upd (fun id _ => spec_has sp id) g) s) l src) = Some c'.
+Proof.
+  intros Hg Hc Hz Ha. pose proof (compile_uniq _ _ _ Hc) as Hu. apply compile_closed in Hc. subst c.
+  pose proof (upd_specs_fold _ _ _ _ _ (on_head_id gc) Hz Hu Ha) as E.
+  assert (forall id ph h ch, compile_item dflt (SRule id ph (g h) ch) = on_head gc (compile_item dflt (SRule id ph h ch))) as Hci.
+  { intros. cbn [compile_item]. unfold on_head, set_head. cbn [cr_id cr_phase cr_mark cr_head cr_chain]. rewrite Hg. reflexivity. }
+  rewrite <- (compile_fold_upd dflt g (on_head gc) l src Hz Hci) in E.
+  subst c'. apply compile_ok. rewrite (compile_fold_upd dflt g (on_head gc) l src Hz Hci).
+  apply uniq_fold_spec_map; [apply on_head_id|exact Hu].
+Qed.
+
+Lemma update_target_structural dflt src c d c' :
+  cf_compile dflt src = Some c -> zero_free d = true ->
+  (exists l items, d = DUpdTargetById l items) \/ (exists t items, d = DUpdTargetByTag t items) ->
+  cf_apply d c = Some c' -> cf_compile dflt (cf_rewrite d src) = Some c'.
+Proof.
+  intros Hc Hz [[l [items E]]|[t [items E]]] Ha; subst d; cbn [cf_apply cf_rewrite zero_free] in *.
+  - destruct l as [|sp l]; [discriminate|].
+    eapply upd_by_id_structural; try eassumption. intros; apply compile_link_add_targets.
+  - inversion Ha; subst c'. pose proof (compile_uniq _ _ _ Hc) as Hu. apply compile_closed in Hc. subst c.
+    assert (map (compile_item dflt)
+              (map (src_upd (fun _ h => mem_bytes t (src_tags (ls_actions h))) (src_add_targets items)) src)
+            = upd_tag t (on_head (update_target items)) (map (compile_item dflt) src)) as E.
+    { unfold upd_tag. rewrite !map_map. apply map_ext. intro it.
+      destruct it as [id ph h ch|nm]; cbn [src_upd].
+      - cbn [compile_item cr_head]. rewrite compile_link_tags.
+        destruct (mem_bytes t (src_tags (ls_actions h))); [|reflexivity].
+        cbn [compile_item]. unfold on_head, set_head. cbn [cr_id cr_phase cr_mark cr_head cr_chain].
+        rewrite compile_link_add_targets. reflexivity.
+      - reflexivity. }
+    rewrite <- E. apply compile_ok. rewrite E. unfold upd_tag. apply uniq_map; [|exact Hu].
+    intro r. destruct (mem_bytes t (cl_tags (cr_head r))); reflexivity.
+Qed.
+
+Theorem update_target_equiv rx dflt src c d c' rq :
+  cf_compile dflt src = Some c -> zero_free d = true ->
+  (exists l items, d = DUpdTargetById l items) \/ (exists t items, d = DUpdTargetByTag t items) ->
+  cf_apply d c = Some c' ->
+  exists c'', cf_compile dflt (cf_rewrite d src) = Some c'' /\ cf_outcome rx c' rq = cf_outcome rx c'' rq.
+Proof. intros. exists c'. split; [eapply update_target_structural; eassumption|reflexivity]. Qed.
+
+Lemma update_action_structural dflt src c l acts c' :
+  cf_compile dflt src = Some c -> forallb spec_zero_free l = true -> no_block acts = true ->
+  cf_apply (DUpdActionById l acts) c = Some c' ->
+  cf_compile dflt (cf_rewrite (DUpdActionById l acts) src) = Some c'.
+Proof.
+  intros Hc Hz Hb Ha. cbn [cf_apply cf_rewrite] in *. destruct l as [|sp l]; [discriminate|].
+  eapply upd_by_id_structural; try eassumption. intros; apply compile_link_add_actions; exact Hb.
+Qed.
+
+Theorem update_action_equiv_partial rx dflt src c l acts c' rq :
+  cf_compile dflt src = Some c -> forallb spec_zero_free l = true -> no_block acts = true ->
+  cf_apply (DUpdActionById l acts) c = Some c' ->
+  exists c'', cf_compile dflt (cf_rewrite (DUpdActionById l acts) src) = Some c'' /\
+              cf_outcome rx c' rq = cf_outcome rx c'' rq.
+Proof. intros. exists c'. split; [eapply update_action_structural; eassumption|reflexivity]. Qed.
+
+(* ================= lists and ranges enumerate their members ================= *)
+
+Definition obind {A B} (o : option A) (f : A -> option B) : option B :=
+  match o with Some x => f x | None => None end.
+
+Lemma rm_specs_app l1 : forall l2 rs, rm_specs (l1 ++ l2) rs = obind (rm_specs l1 rs) (rm_specs l2).
+Proof.
+  induction l1 as [|sp l1 IH]; intros l2 rs; [reflexivity|]. cbn [app rm_specs].
+  destruct sp as [n|a b]; [apply IH|]. destruct (b <? a); [reflexivity|apply IH].
+Qed.
+
+Lemma upd_specs_app single f l1 : forall l2 rs,
+  upd_specs single f (l1 ++ l2) rs = obind (upd_specs single f l1 rs) (upd_specs single f l2).
+Proof.
+  induction l1 as [|sp l1 IH]; intros l2 rs; [reflexivity|]. cbn [app upd_specs].
+  destruct sp as [n|a b].
+  - destruct (upd_first n f rs); [apply IH|]. destruct single; [reflexivity|apply IH].
+  - destruct (a =? b).
+    + destruct (upd_first a f rs); [apply IH|reflexivity].
+    + destruct (b <? a); [reflexivity|apply IH].
+Qed.
+
+(* the ids of the rule list that fall into a range, in list order *)
+Definition present (a b : N) (rs : list crule) : list N := filter (in_rng a b) (map cr_id rs).
+
+Lemma fold_del_first_skip ids : forall r t,
+  (forall i, In i ids -> cr_id r <> i) ->
+  fold_left (fun rs i => del_first i rs) ids (r :: t) = r :: fold_left (fun rs i => del_first i rs) ids t.
+Proof.
+  induction ids as [|i ids IH]; intros r t H; [reflexivity|]. cbn [fold_left del_first].
+  destruct (N.eqb_spec (cr_id r) i) as [E|E]; [exfalso; exact (H i (or_introl eq_refl) E)|].
+  apply IH. intros j Hj. apply H. right; exact Hj.
+Qed.
+
+(* SecRuleRemoveById a-b = SecRuleRemoveById i for every present member i (no uniqueness needed:
+   DeleteByID removes one rule per call) *)
+Lemma del_range_enumerate a b rs :
+  del_range a b rs = fold_left (fun rs i => del_first i rs) (present a b rs) rs.
+Proof.
+  unfold present. induction rs as [|r t IH]; [reflexivity|]. cbn [del_range filter map].
+  destruct (in_rng a b (cr_id r)) eqn:E; cbn [negb fold_left del_first].
+  - rewrite N.eqb_refl. exact IH.
+  - rewrite fold_del_first_skip.
+    + f_equal. exact IH.
+    + intros i Hi Ei. apply filter_In in Hi as [_ Hi]. congruence.
+Qed.
+
+Definition upd_first_or_skip (i : N) (f : crule -> crule) (rs : list crule) : list crule :=
+  match upd_first i f rs with Some rs' => rs' | None => rs end.
+
+Lemma fold_upd_first_skip f ids : forall r t,
+  (forall i, In i ids -> cr_id r <> i) ->
+  fold_left (fun rs i => upd_first_or_skip i f rs) ids (r :: t)
+  = r :: fold_left (fun rs i => upd_first_or_skip i f rs) ids t.
+Proof.
+  induction ids as [|i ids IH]; intros r t H; [reflexivity|]. cbn [fold_left].
+  unfold upd_first_or_skip at 2 4. cbn [upd_first].
+  destruct (N.eqb_spec (cr_id r) i) as [E|E]; [exfalso; exact (H i (or_introl eq_refl) E)|].
+  assert (forall j, In j ids -> cr_id r <> j) as H' by (intros j Hj; apply H; right; exact Hj).
+  destruct (upd_first i f t); apply IH; exact H'.
+Qed.
+
+(* SecRuleUpdate…ById a-b = the single-id update for every present member, when non-zero ids are
+   unique and the range does not cover 0 *)
+Lemma upd_range_enumerate a b f rs :
+  (forall r, cr_id (f r) = cr_id r) -> in_rng a b 0 = false -> uniq rs ->
+  upd_range a b f rs = fold_left (fun rs i => upd_first_or_skip i f rs) (present a b rs) rs.
+Proof.
+  intros Hf H0. unfold present. induction rs as [|r t IH]; intro Hu; [reflexivity|].
+  cbn [upd_range map filter uniq] in *. destruct Hu as [H1 H2].
+  destruct (in_rng a b (cr_id r)) eqn:E; cbn [fold_left].
+  - unfold upd_first_or_skip at 2. cbn [upd_first]. rewrite N.eqb_refl.
+    rewrite fold_upd_first_skip.
+    + f_equal. apply IH; exact H2.
+    + intros i Hi Ei. apply filter_In in Hi as [Hi _]. apply in_map_iff in Hi as [x [Ex Hx]].
+      rewrite Hf in Ei. destruct H1 as [H1|H1]; [rewrite H1 in E; congruence|].
+      apply (has_id_false_in _ _ H1 x Hx). congruence.
+  - rewrite fold_upd_first_skip.
+    + f_equal. apply IH; exact H2.
+    + intros i Hi Ei. apply filter_In in Hi as [_ Hi]. congruence.
+Qed.
+
+Theorem lists_ranges_enumerate :
+  (* a list of id fields = the fields one after the other *)
+  (forall l1 l2 rs, cf_apply (DRemoveById (l1 ++ l2)) rs
+                    = match l1, l2 with
+                      | [], _ => cf_apply (DRemoveById l2) rs
+                      | _, [] => cf_apply (DRemoveById l1) rs
+                      | _, _ => obind (cf_apply (DRemoveById l1) rs) (cf_apply (DRemoveById l2))
+                      end) /\
+  (forall single f l1 l2 rs,
+      upd_specs single f (l1 ++ l2) rs = obind (upd_specs single f l1 rs) (upd_specs single f l2)) /\
+  (* a range = its present members one after the other *)
+  (forall a b rs, a <= b ->
+      cf_apply (DRemoveById [IdRange a b]) rs
+      = Some (fold_left (fun rs i => del_first i rs) (present a b rs) rs)) /\
+  (forall a b f rs, (forall r, cr_id (f r) = cr_id r) -> in_rng a b 0 = false -> uniq rs ->
+      upd_range a b f rs = fold_left (fun rs i => upd_first_or_skip i f rs) (present a b rs) rs).
+Proof.
+  repeat split.
+  - intros l1 l2 rs. destruct l1 as [|s1 l1]; [reflexivity|]. destruct l2 as [|s2 l2].
+    + rewrite app_nil_r. reflexivity.
+    + cbn [cf_apply app]. change (s1 :: l1 ++ s2 :: l2) with ((s1 :: l1) ++ s2 :: l2).
+      rewrite rm_specs_app. destruct (rm_specs (s1 :: l1) rs); reflexivity.
+  - intros. apply upd_specs_app.
+  - intros a b rs Hab. cbn [cf_apply rm_specs]. destruct (N.ltb_spec b a); [lia|].
+    rewrite del_range_enumerate. reflexivity.
+  - intros. apply upd_range_enumerate; assumption.
+Qed.
+
+(* ================= one transaction does not change what the next one sees ================= *)
+Lemma serve_local : forall rx rules rqs1 rq rqs2,
+  nth (length rqs1) (cf_serve rx rules (rqs1 ++ rq :: rqs2)) ([], None) = cf_outcome rx rules rq.
+Proof.
+  intros. unfold cf_serve. rewrite map_app. cbn [map].
+  rewrite app_nth2; rewrite map_length; [|lia]. rewrite Nat.sub_diag. reflexivity.
+Qed.
+
+(* ================= run-time ctl: simulation between the transaction that executed the ctl and
+   the same transaction over the rewritten rule list ================= *)
+
+Definition same_obs (s1 s2 : txst) : Prop :=
+  st_skip s1 = st_skip s2 /\ st_intr s1 = st_intr s2 /\ st_matched s1 = st_matched s2.
+
+Definition obs (s : txst) := (st_matched s, st_intr s, st_skip s).
+
+Lemma same_obs_obs s1 s2 : same_obs s1 s2 -> obs s1 = obs s2.
+Proof. intros [A [B C]]. unfold obs. rewrite A, B, C. reflexivity. Qed.
+
+(* the ctl family never touches skip / interruption / matched rules *)
+Lemma ctl_step_skip rules c s : st_skip (cf_ctl_step rules c s) = st_skip s.
+Proof. destruct c as [[n|a b]| | |sp v k| |]; cbn [cf_ctl_step]; try reflexivity;
+       try (destruct (a <=? b); reflexivity); destruct (spec_valid sp); reflexivity. Qed.
+Lemma ctl_step_intr rules c s : st_intr (cf_ctl_step rules c s) = st_intr s.
+Proof. destruct c as [[n|a b]| | |sp v k| |]; cbn [cf_ctl_step]; try reflexivity;
+       try (destruct (a <=? b); reflexivity); destruct (spec_valid sp); reflexivity. Qed.
+Lemma ctl_step_matched rules c s : st_matched (cf_ctl_step rules c s) = st_matched s.
+Proof. destruct c as [[n|a b]| | |sp v k| |]; cbn [cf_ctl_step]; try reflexivity;
+       try (destruct (a <=? b); reflexivity); destruct (spec_valid sp); reflexivity. Qed.
+
+Section Sim.
+Variable rx : bytes -> bytes -> bool.
+Variables all1 all2 : list crule.
+Variable RX : txst -> txst -> Prop.     (* relates the exclusion parts only *)
+
+Hypothesis RX_frame : forall s1 s2, RX s1 s2 -> forall k1 i1 m1 k2 i2 m2,
+  RX (mkSt (st_rm s1) (st_rng s1) (st_texc s1) k1 i1 m1) (mkSt (st_rm s2) (st_rng s2) (st_texc s2) k2 i2 m2).
+Hypothesis RX_ctl : forall c s1 s2, RX s1 s2 -> RX (cf_ctl_step all1 c s1) (cf_ctl_step all2 c s2).
+
+Definition Rel (s1 s2 : txst) : Prop := RX s1 s2 /\ same_obs s1 s2.
+
+(* link correspondence under a parent id *)
+Definition LC (rq : request) (pid : N) (l1 l2 : clink) : Prop :=
+  cl_nd l1 = cl_nd l2 /\
+  forall s1 s2, RX s1 s2 -> link_matches rx l1 (texc_for s1 pid) rq = link_matches rx l2 (texc_for s2 pid) rq.
+
+Definition RC (rq : request) (r1 r2 : crule) : Prop :=
+  cr_id r1 = cr_id r2 /\ cr_phase r1 = cr_phase r2 /\ cr_mark r1 = cr_mark r2 /\
+  cl_disr (cr_head r1) = cl_disr (cr_head r2) /\ cl_flow (cr_head r1) = cl_flow (cr_head r2) /\
+  cl_status (cr_head r1) = cl_status (cr_head r2) /\
+  LC rq (cr_id r1) (cr_head r1) (cr_head r2) /\ Forall2 (LC rq (cr_id r1)) (cr_chain r1) (cr_chain r2) /\
+  (forall s1 s2, RX s1 s2 -> is_removed s1 (cr_id r1) = is_removed s2 (cr_id r2)).
+
+Lemma Rel_ctl c s1 s2 : Rel s1 s2 -> Rel (cf_ctl_step all1 c s1) (cf_ctl_step all2 c s2).
+Proof.
+  intros [H [A [B C]]]. split; [apply RX_ctl; exact H|].
+  unfold same_obs. rewrite !ctl_step_skip, !ctl_step_intr, !ctl_step_matched. auto.
+Qed.
+
+Lemma Rel_run_nd cs : forall s1 s2, Rel s1 s2 -> Rel (run_nd all1 cs s1) (run_nd all2 cs s2).
+Proof.
+  unfold run_nd. induction cs as [|c cs IH]; intros s1 s2 H; cbn [fold_left]; [exact H|].
+  apply IH. apply Rel_ctl; exact H.
+Qed.
+
+Lemma Rel_set_skip m s1 s2 : Rel s1 s2 -> Rel (st_set_skip m s1) (st_set_skip m s2).
+Proof.
+  intros [H [A [B C]]]. split; [apply RX_frame; exact H|]. unfold same_obs, st_set_skip; cbn. auto.
+Qed.
+
+Lemma Rel_interrupt i s1 s2 : Rel s1 s2 -> Rel (st_interrupt i s1) (st_interrupt i s2).
+Proof.
+  intros [H [A [B C]]]. unfold st_interrupt. rewrite <- B. destruct (st_intr s1) eqn:E1.
+  - split; [exact H|]. unfold same_obs. rewrite E1. auto.
+  - split; [apply RX_frame; exact H|]. unfold same_obs; cbn. auto.
+Qed.
+
+Lemma Rel_exec_disr id stt d s1 s2 : Rel s1 s2 -> Rel (exec_disr id stt d s1) (exec_disr id stt d s2).
+Proof. intro H. destruct d; cbn [exec_disr]; try exact H; apply Rel_interrupt; exact H. Qed.
+
+Lemma Rel_add_match id m s1 s2 : Rel s1 s2 -> Rel (st_add_match id m s1) (st_add_match id m s2).
+Proof.
+  intros [H [A [B C]]]. split; [apply RX_frame; exact H|]. unfold same_obs, st_add_match; cbn. rewrite C. auto.
+Qed.
+
+Lemma Rel_fold_disr id stt ds : forall s1 s2, Rel s1 s2 ->
+  Rel (fold_left (fun s d => exec_disr id stt d s) ds s1) (fold_left (fun s d => exec_disr id stt d s) ds s2).
+Proof. induction ds as [|d ds IH]; intros s1 s2 H; cbn [fold_left]; [exact H|]. apply IH, Rel_exec_disr, H. Qed.
+
+Lemma Rel_fold_skip ms : forall s1 s2, Rel s1 s2 ->
+  Rel (fold_left (fun s m => st_set_skip m s) ms s1) (fold_left (fun s m => st_set_skip m s) ms s2).
+Proof. induction ms as [|m ms IH]; intros s1 s2 H; cbn [fold_left]; [exact H|]. apply IH, Rel_set_skip, H. Qed.
+
+Lemma Rel_eval_chain rq pid ch1 : forall ch2 s1 s2 acc,
+  Forall2 (LC rq pid) ch1 ch2 -> Rel s1 s2 ->
+  Rel (fst (eval_chain rx all1 pid ch1 rq s1 acc)) (fst (eval_chain rx all2 pid ch2 rq s2 acc)) /\
+  snd (eval_chain rx all1 pid ch1 rq s1 acc) = snd (eval_chain rx all2 pid ch2 rq s2 acc).
+Proof.
+  induction ch1 as [|l1 ch1 IH]; intros ch2 s1 s2 acc HF HR; inversion HF; subst; cbn [eval_chain].
+  - split; [exact HR|reflexivity].
+  - match goal with H : LC _ _ l1 _ |- _ => destruct H as [Hnd Hm] end.
+    rewrite (Hm s1 s2 (proj1 HR)).
+    destruct (link_matches rx y (texc_for s2 pid) rq) as [|m0 ms]; [split; [exact HR|reflexivity]|].
+    rewrite Hnd. apply IH; [assumption|]. apply Rel_run_nd; exact HR.
+Qed.
+
+Lemma Rel_eval_rule rq r1 r2 s1 s2 :
+  RC rq r1 r2 -> Rel s1 s2 -> Rel (eval_rule rx all1 r1 rq s1) (eval_rule rx all2 r2 rq s2).
+Proof.
+  intros [Hid [_ [_ [Hd [Hf [Hs [[Hnd Hm] [Hch _]]]]]]]] HR. unfold eval_rule.
+  rewrite <- Hid. rewrite (Hm s1 s2 (proj1 HR)).
+  destruct (link_matches rx (cr_head r2) (texc_for s2 (cr_id r1)) rq) as [|m0 ms]; [exact HR|].
+  rewrite Hnd.
+  pose proof (Rel_eval_chain rq (cr_id r1) (cr_chain r1) (cr_chain r2) _ _ (m0 :: ms) Hch
+                (Rel_run_nd (cl_nd (cr_head r2)) _ _ HR)) as [K1 K2].
+  destruct (eval_chain rx all1 (cr_id r1) (cr_chain r1) rq (run_nd all1 (cl_nd (cr_head r2)) s1) (m0 :: ms)) as [t1 o1].
+  destruct (eval_chain rx all2 (cr_id r1) (cr_chain r2) rq (run_nd all2 (cl_nd (cr_head r2)) s2) (m0 :: ms)) as [t2 o2].
+  cbn [fst snd] in K1, K2. subst o2. destruct o1 as [mm|]; [|exact K1].
+  rewrite Hd, Hf, Hs.
+  assert (Rel (fold_left (fun s m => st_set_skip m s) (cl_flow (cr_head r2))
+                 (fold_left (fun s d => exec_disr (cr_id r1) (cl_status (cr_head r2)) d s) (cl_disr (cr_head r2)) t1))
+              (fold_left (fun s m => st_set_skip m s) (cl_flow (cr_head r2))
+                 (fold_left (fun s d => exec_disr (cr_id r1) (cl_status (cr_head r2)) d s) (cl_disr (cr_head r2)) t2))) as K3
+    by (apply Rel_fold_skip, Rel_fold_disr, K1).
+  destruct (cr_id r1 =? 0); [exact K3|apply Rel_add_match; exact K3].
+Qed.
+
+Lemma Rel_eval_step ph rq r1 r2 s1 s2 :
+  RC rq r1 r2 -> Rel s1 s2 -> Rel (eval_step rx all1 ph rq s1 r1) (eval_step rx all2 ph rq s2 r2).
+Proof.
+  intros HC HR. pose proof HC as [Hid [Hph [Hmk [_ [_ [_ [_ [_ Hrm]]]]]]]]. unfold eval_step.
+  rewrite <- Hph. destruct (negb (cr_phase r1 =? 0) && negb (cr_phase r1 =? ph)); [exact HR|].
+  rewrite <- (Hrm s1 s2 (proj1 HR)). destruct (is_removed s1 (cr_id r1)); [exact HR|].
+  destruct HR as [HX [A [B C]]]. rewrite <- A, <- Hmk.
+  destruct (negb (bytes_nil (st_skip s1))).
+  - destruct (bytes_eqb (cr_mark r1) (st_skip s1)); [apply Rel_set_skip|]; (split; [exact HX|split; auto]).
+  - apply Rel_eval_rule; [exact HC|]. split; [exact HX|split; auto].
+Qed.
+
+Lemma Rel_eval_list ph rq rs1 : forall rs2 s1 s2,
+  Forall2 (RC rq) rs1 rs2 -> Rel s1 s2 ->
+  Rel (eval_list rx all1 rs1 ph rq s1) (eval_list rx all2 rs2 ph rq s2).
+Proof.
+  induction rs1 as [|r1 rs1 IH]; intros rs2 s1 s2 HF HR; inversion HF; subst; cbn [eval_list]; [exact HR|].
+  pose proof HR as [_ [_ [B _]]]. rewrite <- B. destruct (st_intr s1); [exact HR|].
+  apply IH; [assumption|]. apply Rel_eval_step; assumption.
+Qed.
+End Sim.
+
+(* ---- how the exclusion state is read ---- *)
+Lemma is_removed_add_rm ids s id : is_removed (st_add_rm ids s) id = is_removed s id || existsb (N.eqb id) ids.
+Proof.
+  unfold is_removed, st_add_rm. cbn [st_rm st_rng]. rewrite existsb_app.
+  destruct (existsb (N.eqb id) (st_rm s)), (existsb (N.eqb id) ids),
+           (existsb (fun r => in_rng (fst r) (snd r) id) (st_rng s)); reflexivity.
+Qed.
+Lemma is_removed_add_rng a b s id : is_removed (st_add_rng a b s) id = is_removed s id || in_rng a b id.
+Proof.
+  unfold is_removed, st_add_rng. cbn [st_rm st_rng]. rewrite existsb_app. cbn [existsb fst snd].
+  rewrite orb_false_r, orb_assoc. reflexivity.
+Qed.
+Lemma is_removed_add_texc l s id : is_removed (st_add_texc l s) id = is_removed s id.
+Proof. reflexivity. Qed.
+Lemma texc_for_add_texc l s id : texc_for (st_add_texc l s) id = texc_for s id ++ filter (fun t => te_id t =? id) l.
+Proof. unfold texc_for, st_add_texc. cbn [st_texc]. apply filter_app. Qed.
+Lemma texc_for_add_rm l s id : texc_for (st_add_rm l s) id = texc_for s id.
+Proof. reflexivity. Qed.
+Lemma texc_for_add_rng a b s id : texc_for (st_add_rng a b s) id = texc_for s id.
+Proof. reflexivity. Qed.
+
+Lemma mem_ids_where p rules id :
+  existsb (N.eqb id) (ids_where p rules) = existsb (fun r => p r && (cr_id r =? id)) rules.
+Proof.
+  unfold ids_where. induction rules as [|r t IH]; [reflexivity|]. cbn [filter existsb].
+  destruct (p r); cbn [map existsb andb]; rewrite IH; [rewrite (N.eqb_sym id)|]; reflexivity.
+Qed.
+
+Lemma filter_texc_map v e ids id :
+  filter (fun t => te_id t =? id) (map (fun i => mkTexc i v e) ids)
+  = map (fun i => mkTexc i v e) (filter (fun i => i =? id) ids).
+Proof.
+  induction ids as [|i ids IH]; [reflexivity|]. cbn [map filter te_id].
+  destruct (i =? id); cbn [map]; rewrite IH; reflexivity.
+Qed.
+
+Lemma filter_ids_where p rules id :
+  filter (fun i => i =? id) (ids_where p rules) = map cr_id (filter (fun r => p r && (cr_id r =? id)) rules).
+Proof.
+  unfold ids_where. induction rules as [|r t IH]; [reflexivity|]. cbn [filter].
+  destruct (p r); cbn [map filter andb]; [destruct (cr_id r =? id); cbn [map]|]; rewrite IH; reflexivity.
+Qed.
+
+Lemma eval_list_intr rx all rs ph rq s i : st_intr s = Some i -> eval_list rx all rs ph rq s = s.
+Proof. intro H. destruct rs; cbn [eval_list]; [reflexivity|]. rewrite H. reflexivity. Qed.
+
+(* ================= C17_ctl_equiv, removal kind ================= *)
+
+(* the set of ids a removal ctl adds to the transaction *)
+Definition rm_set (all : list crule) (c : ctl) (id : N) : bool :=
+  match c with
+  | CRmId (IdOne n) => id =? n
+  | CRmId (IdRange a b) => (a <=? b) && in_rng a b id
+  | CRmTag t => existsb (fun r => mem_bytes t (cl_tags (cr_head r)) && (cr_id r =? id)) all
+  | CRmMsg m => existsb (fun r => opt_bytes_is (cl_msg (cr_head r)) m && (cr_id r =? id)) all
+  | _ => false
+  end.
+
+Definition is_rm_ctl (c : ctl) : bool :=
+  match c with CRmId _ | CRmTag _ | CRmMsg _ => true | _ => false end.
+
+Section RmSim.
+Variable rx : bytes -> bytes -> bool.
+Variable all : list crule.
+Variable P : N -> bool.
+
+Definition keepP (r : crule) : bool := negb (P (cr_id r)).
+Definition allP : list crule := filter keepP all.
+
+Definition RXrm (s1 s2 : txst) : Prop :=
+  (forall id, is_removed s1 id = P id || is_removed s2 id) /\
+  (forall id, P id = false -> texc_for s1 id = texc_for s2 id).
+
+Lemma RXrm_frame : forall s1 s2, RXrm s1 s2 -> forall k1 i1 m1 k2 i2 m2,
+  RXrm (mkSt (st_rm s1) (st_rng s1) (st_texc s1) k1 i1 m1) (mkSt (st_rm s2) (st_rng s2) (st_texc s2) k2 i2 m2).
+Proof. intros s1 s2 H; intros. exact H. Qed.
+
+Lemma keep_sel_filter (p : crule -> bool) id : P id = false ->
+  filter (fun r => p r && (cr_id r =? id)) allP = filter (fun r => p r && (cr_id r =? id)) all.
+Proof.
+  intro H. unfold allP. rewrite filter_filter. apply filter_ext'. intros r _. unfold keepP.
+  destruct (N.eqb_spec (cr_id r) id) as [E|E]; [rewrite E, H; reflexivity|rewrite andb_false_r, andb_false_r; reflexivity].
+Qed.
+
+Lemma keep_sel_exists (p : crule -> bool) id : P id = false ->
+  existsb (fun r => p r && (cr_id r =? id)) allP = existsb (fun r => p r && (cr_id r =? id)) all.
+Proof.
+  intro H. unfold allP. induction all as [|r t IH]; [reflexivity|]. cbn [filter]. unfold keepP at 1.
+  destruct (N.eqb_spec (cr_id r) id) as [E|E].
+  - rewrite E, H. cbn [negb existsb]. rewrite IH, <- E, N.eqb_refl. reflexivity.
+  - destruct (negb (P (cr_id r))); cbn [existsb]; rewrite IH.
+    + reflexivity.
+    + destruct (N.eqb_spec (cr_id r) id); [contradiction|]. rewrite andb_false_r. reflexivity.
+Qed.
+
+Lemma RXrm_add_ids (p : crule -> bool) s1 s2 : RXrm s1 s2 ->
+  RXrm (st_add_rm (ids_where p all) s1) (st_add_rm (ids_where p allP) s2).
+Proof.
+  intros [H1 H2]. split; [|exact H2]. intro id. rewrite !is_removed_add_rm, H1, !mem_ids_where.
+  destruct (P id) eqn:E; [reflexivity|]. rewrite (keep_sel_exists p id E). reflexivity.
+Qed.
+
+Lemma RXrm_add_texc (p : crule -> bool) v e s1 s2 : RXrm s1 s2 ->
+  RXrm (st_add_texc (map (fun i => mkTexc i v e) (ids_where p all)) s1)
+       (st_add_texc (map (fun i => mkTexc i v e) (ids_where p allP)) s2).
+Proof.
+  intros [H1 H2]. split; [exact H1|]. intros id E. rewrite !texc_for_add_texc, (H2 id E). f_equal.
+  rewrite !filter_texc_map, !filter_ids_where, (keep_sel_filter p id E). reflexivity.
+Qed.
+
+Lemma RXrm_ctl c s1 s2 : RXrm s1 s2 -> RXrm (cf_ctl_step all c s1) (cf_ctl_step allP c s2).
+Proof.
+  intro H. destruct c as [[n|a b]|t|m|sp v k|t v k|m v k]; cbn [cf_ctl_step].
+  - destruct H as [H1 H2]. split; [|exact H2]. intro id. rewrite !is_removed_add_rm, H1, orb_assoc. reflexivity.
+  - destruct (a <=? b); [|exact H]. destruct H as [H1 H2]. split; [|exact H2].
+    intro id. rewrite !is_removed_add_rng, H1, orb_assoc. reflexivity.
+  - apply RXrm_add_ids; exact H.
+  - apply RXrm_add_ids; exact H.
+  - destruct (spec_valid sp); [|exact H]. apply (RXrm_add_texc (fun r => spec_has sp (cr_id r))); exact H.
+  - apply (RXrm_add_texc (fun r => mem_bytes t (cl_tags (cr_head r)))); exact H.
+  - apply (RXrm_add_texc (fun r => opt_bytes_is (cl_msg (cr_head r)) m)); exact H.
+Qed.
+
+Lemma LC_refl_rm rq pid l : P pid = false -> LC rx RXrm rq pid l l.
+Proof. intro E. split; [reflexivity|]. intros s1 s2 [_ H2]. rewrite (H2 pid E). reflexivity. Qed.
+
+Lemma RC_refl_rm rq r : P (cr_id r) = false -> RC rx RXrm rq r r.
+Proof.
+  intro E. repeat split; try reflexivity.
+  - intros s1 s2 [_ H2]. rewrite (H2 _ E). reflexivity.
+  - induction (cr_chain r) as [|l t IH]; constructor; [apply LC_refl_rm; exact E|exact IH].
+  - intros s1 s2 [H1 _]. rewrite H1, E. reflexivity.
+Qed.
+
+Lemma rm_sim_list ph rq rs : forall s1 s2,
+  Rel RXrm s1 s2 ->
+  Rel RXrm (eval_list rx all rs ph rq s1) (eval_list rx allP (filter keepP rs) ph rq s2).
+Proof.
+  induction rs as [|r rs IH]; intros s1 s2 HR; cbn [filter eval_list]; [exact HR|].
+  pose proof HR as [[H1 _] [_ [B _]]].
+  destruct (st_intr s1) as [i|] eqn:Ei.
+  - rewrite (eval_list_intr rx allP _ ph rq s2 i) by congruence. exact HR.
+  - unfold keepP at 1. destruct (P (cr_id r)) eqn:E; cbn [negb].
+    + (* the removed rule: skipped on the left, absent on the right *)
+      assert (eval_step rx all ph rq s1 r = s1) as K.
+      { unfold eval_step. destruct (negb (cr_phase r =? 0) && negb (cr_phase r =? ph)); [reflexivity|].
+        rewrite H1, E. reflexivity. }
+      rewrite K. apply IH; exact HR.
+    + cbn [eval_list]. rewrite <- B. apply IH.
+      apply (Rel_eval_step rx all allP RXrm RXrm_frame RXrm_ctl); [apply RC_refl_rm; exact E|exact HR].
+Qed.
+End RmSim.
+
+Lemma rm_ctl_initial all c st : is_rm_ctl c = true -> RXrm (rm_set all c) (cf_ctl_step all c st) st.
+Proof.
+  intro Hc. destruct c as [[n|a b]|t|m| | |]; try discriminate; cbn [cf_ctl_step].
+  - split; [|reflexivity]. intro id. cbn [rm_set]. rewrite is_removed_add_rm. cbn [existsb].
+    rewrite orb_false_r, orb_comm. reflexivity.
+  - destruct (a <=? b) eqn:E.
+    + split; [|reflexivity]. intro id. cbn [rm_set]. rewrite E, is_removed_add_rng, orb_comm. reflexivity.
+    + split; [|reflexivity]. intro id. cbn [rm_set]. rewrite E. reflexivity.
+  - split; [|reflexivity]. intro id. cbn [rm_set]. rewrite is_removed_add_rm, mem_ids_where, orb_comm. reflexivity.
+  - split; [|reflexivity]. intro id. cbn [rm_set]. rewrite is_removed_add_rm, mem_ids_where, orb_comm. reflexivity.
+Qed.
+
+(* after ctl:ruleRemoveById/ByTag/ByMsg executed, every later evaluation (any list of rules [rs] of
+   the WAF, any phase) behaves as over the rule list without the rules carrying the removed ids *)
+Theorem ctl_remove_equiv rx all c st rs ph rq :
+  is_rm_ctl c = true ->
+  obs (eval_list rx all rs ph rq (cf_ctl_step all c st))
+  = obs (eval_list rx (allP all (rm_set all c)) (filter (keepP (rm_set all c)) rs) ph rq st).
+Proof.
+  intro Hc. apply same_obs_obs. apply (rm_sim_list rx all (rm_set all c) ph rq rs).
+  split; [apply rm_ctl_initial; exact Hc|]. unfold same_obs.
+  rewrite ctl_step_skip, ctl_step_intr, ctl_step_matched. auto.
+Qed.
+
+(* ================= C17_ctl_equiv, target-exclusion kind ================= *)
+
+Definition add_exc_vars (v : var) (e : exc) (vs : list cvar) : list cvar :=
+  map (fun cv => if var_eqb (cv_var cv) v then cv_add_exc e cv else cv) vs.
+
+Definition add_exc_link (v : var) (e : exc) (l : clink) : clink := set_vars l (add_exc_vars v e (cl_vars l)).
+
+(* the rule with the exclusion written into every link (the chain members are looked up under the
+   parent id by the code) *)
+Definition add_exc_rule (v : var) (e : exc) (r : crule) : crule :=
+  mkCrule (cr_id r) (cr_phase r) (cr_mark r) (add_exc_link v e (cr_head r)) (map (add_exc_link v e) (cr_chain r)).
+
+(* ids / variable / exception a target ctl stores in the transaction *)
+Definition tgt_ids (all : list crule) (c : ctl) : list N :=
+  match c with
+  | CRmTargetId s _ _ => if spec_valid s then ids_where (fun r => spec_has s (cr_id r)) all else []
+  | CRmTargetTag t _ _ => ids_where (fun r => mem_bytes t (cl_tags (cr_head r))) all
+  | CRmTargetMsg m _ _ => ids_where (fun r => opt_bytes_is (cl_msg (cr_head r)) m) all
+  | _ => []
+  end.
+Definition tgt_var (c : ctl) : var :=
+  match c with CRmTargetId _ v _ | CRmTargetTag _ v _ | CRmTargetMsg _ v _ => v | _ => VMethod end.
+Definition tgt_exc (c : ctl) : exc :=
+  match c with CRmTargetId _ _ k | CRmTargetTag _ _ k | CRmTargetMsg _ _ k => ctl_exc k | _ => mkExc [] None end.
+Definition is_tgt_ctl (c : ctl) : bool :=
+  match c with CRmTargetId _ _ _ | CRmTargetTag _ _ _ | CRmTargetMsg _ _ _ => true | _ => false end.
+
+Lemma excluded_app rx a b k : excluded rx (a ++ b) k = excluded rx a k || excluded rx b k.
+Proof. apply existsb_app. Qed.
+
+(* select reads the exception list only through [excluded] *)
+Lemma select_congr rx cv cv' ecol ecol' rq :
+  cv_count cv = cv_count cv' -> cv_var cv = cv_var cv' -> cv_key cv = cv_key cv' -> cv_rx cv = cv_rx cv' ->
+  (forall k, excluded rx (cv_exc cv ++ extras ecol (cv_var cv)) k
+             = excluded rx (cv_exc cv' ++ extras ecol' (cv_var cv')) k) ->
+  select rx cv ecol rq = select rx cv' ecol' rq.
+Proof.
+  intros Hc Hv Hk Hr He. unfold select.
+  assert (select_base rx cv rq = select_base rx cv' rq) as Eb by (unfold select_base; rewrite Hv, Hk, Hr; reflexivity).
+  rewrite Eb, <- Hc, <- Hv, <- Hk.
+  rewrite (filter_ext' (fun e => negb (excluded rx (cv_exc cv ++ extras ecol (cv_var cv)) (lower_ascii (ent_key e))))
+                       (fun e => negb (excluded rx (cv_exc cv' ++ extras ecol' (cv_var cv)) (lower_ascii (ent_key e))))).
+  - reflexivity.
+  - intros x _. rewrite He, Hv. reflexivity.
+Qed.
+
+Section TgtSim.
+Variable rx : bytes -> bytes -> bool.
+Variable all : list crule.
+Variable ids : list N.     (* the ids that received the exclusion *)
+Variable v : var.
+Variable e : exc.
+
+Definition tq (id : N) : bool := existsb (N.eqb id) ids.
+Definition rwT (r : crule) : crule := if tq (cr_id r) then add_exc_rule v e r else r.
+Definition allT : list crule := map rwT all.
+
+Definition dyn (s : txst) (id : N) (w : var) (k : bytes) : bool := excluded rx (extras (texc_for s id) w) k.
+
+Definition RXt (s1 s2 : txst) : Prop :=
+  st_rm s1 = st_rm s2 /\ st_rng s1 = st_rng s2 /\
+  forall id w k, dyn s1 id w k = (tq id && var_eqb v w && exc_hit rx e k) || dyn s2 id w k.
+
+Lemma RXt_frame : forall s1 s2, RXt s1 s2 -> forall k1 i1 m1 k2 i2 m2,
+  RXt (mkSt (st_rm s1) (st_rng s1) (st_texc s1) k1 i1 m1) (mkSt (st_rm s2) (st_rng s2) (st_texc s2) k2 i2 m2).
+Proof. intros s1 s2 H; intros. exact H. Qed.
+
+Lemma rwT_id r : cr_id (rwT r) = cr_id r.
+Proof. unfold rwT. destruct (tq (cr_id r)); reflexivity. Qed.
+Lemma rwT_tags r : cl_tags (cr_head (rwT r)) = cl_tags (cr_head r).
+Proof. unfold rwT. destruct (tq (cr_id r)); reflexivity. Qed.
+Lemma rwT_msg r : cl_msg (cr_head (rwT r)) = cl_msg (cr_head r).
+Proof. unfold rwT. destruct (tq (cr_id r)); reflexivity. Qed.
+
+Lemma ids_where_allT (p : crule -> bool) : (forall r, p (rwT r) = p r) -> ids_where p allT = ids_where p all.
+Proof.
+  intro Hp. unfold ids_where, allT. induction all as [|r t IH]; [reflexivity|]. cbn [map filter].
+  rewrite Hp. destruct (p r); cbn [map]; rewrite IH, ?rwT_id; reflexivity.
+Qed.
+
+Lemma dyn_add_texc l s id w k :
+  dyn (st_add_texc l s) id w k = dyn s id w k || excluded rx (extras (filter (fun t => te_id t =? id) l) w) k.
+Proof.
+  unfold dyn. rewrite texc_for_add_texc. unfold extras. rewrite filter_app, map_app. apply excluded_app.
+Qed.
+
+Lemma RXt_ctl c s1 s2 : RXt s1 s2 -> RXt (cf_ctl_step all c s1) (cf_ctl_step allT c s2).
+Proof.
+  intros [H1 [H2 H3]].
+  assert (forall p, (forall r, p (rwT r) = p r) -> forall s1' s2',
+            st_rm s1' = st_rm s2' -> RXt (st_add_rm (ids_where p all) s1') (st_add_rm (ids_where p allT) s2') ->
+            True) as _ by auto.
+  destruct c as [[n|a b]|t|m|sp w k|t w k|m w k]; cbn [cf_ctl_step].
+  - split; [cbn; rewrite H1; reflexivity|split; [exact H2|exact H3]].
+  - destruct (a <=? b); [|split; [exact H1|split; [exact H2|exact H3]]].
+    split; [exact H1|split; [cbn; rewrite H2; reflexivity|exact H3]].
+  - rewrite (ids_where_allT (fun r => mem_bytes t (cl_tags (cr_head r)))) by (intro r; rewrite rwT_tags; reflexivity).
+    split; [cbn; rewrite H1; reflexivity|split; [exact H2|exact H3]].
+  - rewrite (ids_where_allT (fun r => opt_bytes_is (cl_msg (cr_head r)) m)) by (intro r; rewrite rwT_msg; reflexivity).
+    split; [cbn; rewrite H1; reflexivity|split; [exact H2|exact H3]].
+  - destruct (spec_valid sp); [|split; [exact H1|split; [exact H2|exact H3]]].
+    rewrite (ids_where_allT (fun r => spec_has sp (cr_id r))) by (intro r; rewrite rwT_id; reflexivity).
+    split; [exact H1|split; [exact H2|]]. intros id w' k'. rewrite !dyn_add_texc, H3, orb_assoc. reflexivity.
+  - rewrite (ids_where_allT (fun r => mem_bytes t (cl_tags (cr_head r)))) by (intro r; rewrite rwT_tags; reflexivity).
+    split; [exact H1|split; [exact H2|]]. intros id w' k'. rewrite !dyn_add_texc, H3, orb_assoc. reflexivity.
+  - rewrite (ids_where_allT (fun r => opt_bytes_is (cl_msg (cr_head r)) m)) by (intro r; rewrite rwT_msg; reflexivity).
+    split; [exact H1|split; [exact H2|]]. intros id w' k'. rewrite !dyn_add_texc, H3, orb_assoc. reflexivity.
+Qed.
+
+Lemma var_eqb_sym a b : var_eqb a b = var_eqb b a.
+Proof. destruct a, b; reflexivity. Qed.
+Lemma var_eqb_eq a b : var_eqb a b = true -> a = b.
+Proof. destruct a, b; cbn; congruence. Qed.
+
+(* one variable of a link, with and without the written exclusion *)
+Lemma select_rw rq pid cv s1 s2 : RXt s1 s2 ->
+  select rx cv (texc_for s1 pid) rq
+  = select rx (if tq pid then (if var_eqb (cv_var cv) v then cv_add_exc e cv else cv) else cv) (texc_for s2 pid) rq.
+Proof.
+  intros [_ [_ H3]]. apply select_congr; try (destruct (tq pid), (var_eqb (cv_var cv) v); reflexivity).
+  intro k. rewrite !excluded_app.
+  assert (cv_var (if tq pid then if var_eqb (cv_var cv) v then cv_add_exc e cv else cv else cv) = cv_var cv) as Ev
+    by (destruct (tq pid), (var_eqb (cv_var cv) v); reflexivity).
+  rewrite Ev. fold (dyn s1 pid (cv_var cv) k). fold (dyn s2 pid (cv_var cv) k). rewrite H3.
+  rewrite (var_eqb_sym v (cv_var cv)).
+  destruct (tq pid); cbn [andb orb]; [|reflexivity].
+  destruct (var_eqb (cv_var cv) v); cbn [andb orb]; [|reflexivity].
+  unfold cv_add_exc. cbn [cv_exc]. rewrite excluded_app. unfold excluded at 3. cbn [existsb].
+  rewrite orb_false_r, orb_assoc. reflexivity.
+Qed.
+
+Lemma link_rw rq pid l s1 s2 : RXt s1 s2 ->
+  link_matches rx l (texc_for s1 pid) rq
+  = link_matches rx (if tq pid then add_exc_link v e l else l) (texc_for s2 pid) rq.
+Proof.
+  intro H. unfold link_matches.
+  assert (cl_op (if tq pid then add_exc_link v e l else l) = cl_op l) as Eo by (destruct (tq pid); reflexivity).
+  rewrite Eo. destruct (cl_op l) as [o|]; [|reflexivity].
+  assert (cl_vars (if tq pid then add_exc_link v e l else l)
+          = map (fun cv => if tq pid then (if var_eqb (cv_var cv) v then cv_add_exc e cv else cv) else cv) (cl_vars l)) as Evs.
+  { destruct (tq pid); [reflexivity|]. rewrite map_id. reflexivity. }
+  rewrite Evs. clear Evs Eo. induction (cl_vars l) as [|cv vs IH]; [reflexivity|]. cbn [map flat_map].
+  rewrite IH, (select_rw rq pid cv s1 s2 H). reflexivity.
+Qed.
+
+Lemma LC_rw rq pid l : LC rx RXt rq pid l (if tq pid then add_exc_link v e l else l).
+Proof. split; [destruct (tq pid); reflexivity|]. intros s1 s2 H. apply link_rw; exact H. Qed.
+
+Lemma RC_rw rq r : RC rx RXt rq r (rwT r).
+Proof.
+  unfold RC. rewrite rwT_id. unfold rwT.
+  repeat split; try (destruct (tq (cr_id r)); reflexivity).
+  - intros s1 s2 H. rewrite (link_rw rq (cr_id r) (cr_head r) s1 s2 H). destruct (tq (cr_id r)); reflexivity.
+  - assert (cr_chain (if tq (cr_id r) then add_exc_rule v e r else r)
+            = map (fun l => if tq (cr_id r) then add_exc_link v e l else l) (cr_chain r)) as Ec.
+    { destruct (tq (cr_id r)); [reflexivity|]. rewrite map_id. reflexivity. }
+    rewrite Ec. clear Ec. induction (cr_chain r) as [|l t IH]; cbn [map]; constructor; [apply LC_rw|exact IH].
+  - intros s1 s2 [H1 [H2 _]]. unfold is_removed. rewrite H1, H2. reflexivity.
+Qed.
+
+Lemma tgt_sim_list ph rq rs s1 s2 :
+  Rel RXt s1 s2 -> Rel RXt (eval_list rx all rs ph rq s1) (eval_list rx allT (map rwT rs) ph rq s2).
+Proof.
+  apply (Rel_eval_list rx all allT RXt RXt_frame RXt_ctl).
+  induction rs as [|r t IH]; constructor; [apply RC_rw|exact IH].
+Qed.
+End TgtSim.
+
+Lemma tgt_initial_dyn rx v e ids id w k :
+  excluded rx (extras (filter (fun t => te_id t =? id) (map (fun i => mkTexc i v e) ids)) w) k
+  = existsb (N.eqb id) ids && var_eqb v w && exc_hit rx e k.
+Proof.
+  induction ids as [|i ids IH]; [reflexivity|].
+  cbn [map filter te_id existsb]. rewrite (N.eqb_sym id i).
+  destruct (i =? id); cbn [orb]; [|exact IH].
+  unfold extras in *. cbn [filter te_var]. destruct (var_eqb v w); cbn [map te_exc].
+  - unfold excluded in *. cbn [existsb]. rewrite IH.
+    destruct (exc_hit rx e k), (existsb (N.eqb id) ids); reflexivity.
+  - rewrite IH. destruct (existsb (N.eqb id) ids); reflexivity.
+Qed.
+
+Lemma tgt_ctl_initial rx all c st : is_tgt_ctl c = true ->
+  RXt rx (tgt_ids all c) (tgt_var c) (tgt_exc c) (cf_ctl_step all c st) st.
+Proof.
+  intro Hc.
+  assert (forall l, RXt rx l (tgt_var c) (tgt_exc c)
+                        (st_add_texc (map (fun i => mkTexc i (tgt_var c) (tgt_exc c)) l) st) st) as K.
+  { intro l. split; [reflexivity|split; [reflexivity|]]. intros id w k.
+    rewrite dyn_add_texc, tgt_initial_dyn, orb_comm. reflexivity. }
+  destruct c as [| | |sp v k|t v k|m v k]; try discriminate; cbn [cf_ctl_step tgt_ids tgt_var tgt_exc] in *.
+  - destruct (spec_valid sp); [apply K|]. split; [reflexivity|split; [reflexivity|]]. intros; reflexivity.
+  - apply K.
+  - apply K.
+Qed.
+
+(* after ctl:ruleRemoveTargetById/ByTag/ByMsg executed, every later evaluation behaves as over the
+   rule list in which the rules carrying the selected ids have the exclusion written into every link *)
+Theorem ctl_target_equiv rx all c st rs ph rq :
+  is_tgt_ctl c = true ->
+  obs (eval_list rx all rs ph rq (cf_ctl_step all c st))
+  = obs (eval_list rx (allT all (tgt_ids all c) (tgt_var c) (tgt_exc c))
+                   (map (rwT (tgt_ids all c) (tgt_var c) (tgt_exc c)) rs) ph rq st).
+Proof.
+  intro Hc. apply same_obs_obs. apply tgt_sim_list.
+  split; [apply tgt_ctl_initial; exact Hc|]. unfold same_obs.
+  rewrite ctl_step_skip, ctl_step_intr, ctl_step_matched. auto.
+Qed.
+
+(* ================= the ctl rewriting at the source level ================= *)
+
+Definition src_ctl_remove (P : N -> bool) (src : list item_src) : list item_src :=
+  filter (src_keep (fun id _ => P id)) src.
+
+Definition key_lower (k : key) : key := match k with KStr s => KStr (lower_ascii s) | _ => k end.
+
+Definition src_add_neg (v : var) (k : key) (l : link_src) : link_src :=
+  mkLinkSrc (ls_targets l ++ [TNeg v (key_lower k)]) (ls_op l) (ls_actions l).
+
+Definition src_ctl_target (Q : N -> bool) (v : var) (k : key) (it : item_src) : item_src :=
+  match it with
+  | SRule id ph h ch => if Q id then SRule id ph (src_add_neg v k h) (map (src_add_neg v k) ch) else it
+  | SMarker _ => it
+  end.
+
+Definition key_not_rx (k : key) : bool := match k with KRx _ => false | _ => true end.
+Definition tgt_key (c : ctl) : key :=
+  match c with CRmTargetId _ _ k | CRmTargetTag _ _ k | CRmTargetMsg _ _ k => k | _ => KNone end.
+
+Lemma compile_src_ctl_remove dflt P src : P 0 = false ->
+  map (compile_item dflt) (src_ctl_remove P src) = filter (keepP P) (map (compile_item dflt) src).
+Proof.
+  intro H0. unfold src_ctl_remove. symmetry. apply map_filter_comm. intros it _. unfold keepP.
+  rewrite compile_item_id. destruct it; cbn [src_keep]; [reflexivity|]. rewrite H0. reflexivity.
+Qed.
+
+Lemma compile_link_add_neg d v k l : key_not_rx k = true ->
+  compile_link d (src_add_neg v k l) = add_exc_link v (ctl_exc k) (compile_link d l).
+Proof.
+  intro Hk. unfold compile_link, add_exc_link, src_add_neg. cbn [ls_targets ls_op ls_actions].
+  rewrite !set_vars_apply. unfold set_vars.
+  cbn [cl_vars cl_op cl_nd cl_disr cl_flow cl_tags cl_msg cl_status].
+  unfold parse_targets. rewrite fold_left_app. cbn [fold_left add_titem].
+  f_equal. unfold add_neg, add_exc_vars. apply map_ext. intro cv.
+  destruct k as [|s|p]; [reflexivity|reflexivity|discriminate].
+Qed.
+
+Lemma compile_src_ctl_target dflt Q v k it : key_not_rx k = true ->
+  compile_item dflt (src_ctl_target Q v k it)
+  = (if Q (cr_id (compile_item dflt it)) then add_exc_rule v (ctl_exc k) (compile_item dflt it) else compile_item dflt it).
+Proof.
+  intro Hk. rewrite compile_item_id. destruct it as [id ph h ch|nm]; cbn [src_ctl_target].
+  - destruct (Q id); [|reflexivity]. cbn [compile_item]. unfold add_exc_rule. cbn [cr_id cr_phase cr_mark cr_head cr_chain].
+    rewrite (compile_link_add_neg _ v k h Hk). f_equal. rewrite !map_map. apply map_ext. intro l.
+    apply compile_link_add_neg; exact Hk.
+  - destruct (Q 0); reflexivity.
+Qed.
+
+Theorem ctl_remove_equiv_src rx dflt src all c st srs ph rq :
+  cf_compile dflt src = Some all -> is_rm_ctl c = true -> rm_set all c 0 = false ->
+  exists all', cf_compile dflt (src_ctl_remove (rm_set all c) src) = Some all' /\
+    obs (eval_list rx all (map (compile_item dflt) srs) ph rq (cf_ctl_step all c st))
+    = obs (eval_list rx all' (map (compile_item dflt) (src_ctl_remove (rm_set all c) srs)) ph rq st).
+Proof.
+  intros Hc Hr H0. pose proof (compile_uniq _ _ _ Hc) as Hu. pose proof (compile_closed _ _ _ Hc) as Ea.
+  exists (allP all (rm_set all c)). split.
+  - clear Hc. subst all. unfold allP. rewrite <- (compile_src_ctl_remove dflt _ src H0). apply compile_ok.
+    rewrite (compile_src_ctl_remove dflt _ src H0). apply uniq_filter. exact Hu.
+  - rewrite (compile_src_ctl_remove dflt _ srs H0). apply ctl_remove_equiv; exact Hr.
+Qed.
+
+Theorem ctl_target_equiv_src rx dflt src all c st srs ph rq :
+  cf_compile dflt src = Some all -> is_tgt_ctl c = true -> key_not_rx (tgt_key c) = true ->
+  let Q := tq (tgt_ids all c) in
+  exists all', cf_compile dflt (map (src_ctl_target Q (tgt_var c) (tgt_key c)) src) = Some all' /\
+    obs (eval_list rx all (map (compile_item dflt) srs) ph rq (cf_ctl_step all c st))
+    = obs (eval_list rx all' (map (compile_item dflt) (map (src_ctl_target Q (tgt_var c) (tgt_key c)) srs)) ph rq st).
+Proof.
+  intros Hc Ht Hk Q. pose proof (compile_uniq _ _ _ Hc) as Hu. pose proof (compile_closed _ _ _ Hc) as Ea.
+  assert (tgt_exc c = ctl_exc (tgt_key c)) as Ee by (destruct c; try discriminate; reflexivity).
+  assert (forall l, map (compile_item dflt) (map (src_ctl_target Q (tgt_var c) (tgt_key c)) l)
+                    = map (rwT (tgt_ids all c) (tgt_var c) (tgt_exc c)) (map (compile_item dflt) l)) as Em.
+  { intro l. rewrite !map_map. apply map_ext. intro it. rewrite (compile_src_ctl_target dflt Q _ _ it Hk).
+    unfold rwT. fold Q. rewrite Ee. reflexivity. }
+  exists (allT all (tgt_ids all c) (tgt_var c) (tgt_exc c)). split.
+  - pose proof (Em src) as Es. unfold allT.
+    replace (map (rwT (tgt_ids all c) (tgt_var c) (tgt_exc c)) all)
+      with (map (compile_item dflt) (map (src_ctl_target Q (tgt_var c) (tgt_key c)) src))
+      by (rewrite Es; f_equal; symmetry; exact Ea).
+    apply compile_ok. rewrite Es. apply uniq_map.
+    + intro r. apply rwT_id.
+    + rewrite <- Ea. exact Hu.
+  - rewrite Em. apply ctl_target_equiv; exact Ht.
+Qed.
+
+(* ================= the interleaving of disruptive and flow actions is immaterial ================= *)
+Lemma cf_exec_commute id stt d m s :
+  exec_disr id stt d (st_set_skip m s) = st_set_skip m (exec_disr id stt d s).
+Proof.
+  destruct d; cbn [exec_disr]; try reflexivity; unfold st_interrupt, st_set_skip; cbn [st_intr];
+    destruct (st_intr s) eqn:E; cbn; rewrite ?E; reflexivity.
+Qed.
+
+(* ================= what an update with an exclusion means for the selection ================= *)
+(* after "!V:key" has been written into a rule (configuration time or ctl), no entry of V whose
+   lower-cased name is hit by the exclusion is selected by any target of V that existed then *)
+Lemma select_excluded rx cv ecol rq e m :
+  cv_count cv = false -> In e (cv_exc cv) -> In m (select rx cv ecol rq) ->
+  exc_hit rx e (lower_ascii (snd (fst m))) = false.
+Proof.
+  intros Hc He Hm. unfold select in Hm. rewrite Hc in Hm. apply in_map_iff in Hm as [x [Ex Hx]].
+  apply filter_In in Hx as [_ Hx]. apply negb_true_iff in Hx. subst m. cbn [fst snd].
+  unfold excluded in Hx. rewrite existsb_app in Hx. apply orb_false_iff in Hx as [Hx _].
+  destruct (exc_hit rx e (lower_ascii (ent_key x))) eqn:E; [|reflexivity].
+  assert (existsb (fun e0 => exc_hit rx e0 (lower_ascii (ent_key x))) (cv_exc cv) = true) as K
+    by (apply existsb_exists; exists e; split; assumption).
+  congruence.
+Qed.
+
+Lemma add_neg_in v k vars cv :
+  In cv (add_neg v k vars) -> cv_var cv = v -> In (mkExc (key_text k) (key_rx (var_cs v) k)) (cv_exc cv).
+Proof.
+  unfold add_neg. intros H Hv. apply in_map_iff in H as [c0 [E _]].
+  destruct (var_eqb (cv_var c0) v) eqn:Ev.
+  - subst cv. unfold cv_add_exc. cbn [cv_exc]. apply in_or_app. right. left. reflexivity.
+  - subst cv. rewrite Hv in Ev. destruct v; discriminate.
+Qed.
+
+Theorem update_target_excludes rx v k l ecol rq cv m :
+  In cv (cl_vars (update_target [TNeg v k] l)) -> cv_var cv = v -> cv_count cv = false ->
+  In m (select rx cv ecol rq) ->
+  exc_hit rx (mkExc (key_text k) (key_rx (var_cs v) k)) (lower_ascii (snd (fst m))) = false.
+Proof.
+  intros Hin Hv Hc Hm. unfold update_target, set_vars in Hin. cbn [cl_vars parse_targets fold_left add_titem] in Hin.
+  eapply select_excluded; [exact Hc| |exact Hm]. eapply add_neg_in; eassumption.
+Qed.
+
+(* ================= refutations (the code as it is) and non-vacuity ================= *)
+From Coq Require Import String.
+Local Open Scope string_scope.
+Local Open Scope N_scope.
+
+Definition w_dflt (ph : N) : option disr := if ph =? 2 then Some DPass else None.
+Definition w_link (v : var) (o : opk) (acts : list action) : link_src :=
+  mkLinkSrc [TPos false v KNone] (mkOp false o) acts.
+Definition w_req : request := mkReq (str "GET") [(str "a", str "x")] [(str "X-Foo", str "x9")].
+
+(* id 0: SecMarker pseudo-rules are hit by SecRuleRemoveById 0 (first marker) *)
+Definition w0_src : list item_src :=
+  [ SRule 5 1 (w_link VMethod OAlways [ADisr DPass; ASkipAfter (str "M1")]) [];
+    SRule 6 1 (w_link VArgs (OContains (str "x")) [ADisr DPass]) [];
+    SMarker (str "M1");
+    SRule 7 1 (w_link VArgs (OContains (str "x")) [ADisr DPass]) [] ].
+
+Lemma remove_id_zero_refuted :
+  exists dflt src d c c' c'' rq,
+    cf_compile dflt src = Some c /\ is_remove d = true /\ cf_apply d c = Some c' /\
+    cf_compile dflt (cf_rewrite d src) = Some c'' /\
+    cf_outcome simple_rx c' rq <> cf_outcome simple_rx c'' rq.
+Proof.
+  exists w_dflt, w0_src, (DRemoveById [IdOne 0]).
+  eexists. eexists. eexists. exists w_req.
+  split; [vm_compute; reflexivity|]. split; [reflexivity|]. split; [vm_compute; reflexivity|].
+  split; [vm_compute; reflexivity|]. vm_compute. discriminate.
+Qed.
+
+(* id 0: SecRuleUpdateActionById 0-6 "deny" makes the SecMarker deny *)
+Lemma update_action_id_zero_refuted :
+  exists dflt src l acts c c' c'' rq,
+    cf_compile dflt src = Some c /\ no_block acts = true /\ cf_apply (DUpdActionById l acts) c = Some c' /\
+    cf_compile dflt (cf_rewrite (DUpdActionById l acts) src) = Some c'' /\
+    cf_outcome simple_rx c' rq <> cf_outcome simple_rx c'' rq.
+Proof.
+  exists w_dflt, [SMarker (str "M1"); SRule 7 1 (w_link VArgs (OContains (str "x")) [ADisr DPass]) []],
+         [IdRange 0 6], [ADisr DDeny].
+  eexists. eexists. eexists. exists w_req.
+  split; [vm_compute; reflexivity|]. split; [reflexivity|]. split; [vm_compute; reflexivity|].
+  split; [vm_compute; reflexivity|]. vm_compute. discriminate.
+Qed.
+
+(* "block" written by SecRuleUpdateActionById is not merged with the phase's SecDefaultAction *)
+Lemma update_action_block_refuted :
+  exists dflt src l acts c c' c'' rq,
+    cf_compile dflt src = Some c /\ forallb spec_zero_free l = true /\
+    cf_apply (DUpdActionById l acts) c = Some c' /\
+    cf_compile dflt (cf_rewrite (DUpdActionById l acts) src) = Some c'' /\
+    cf_outcome simple_rx c' rq <> cf_outcome simple_rx c'' rq.
+Proof.
+  exists (fun ph => if ph =? 2 then Some DDeny else None),
+         [SRule 1 2 (w_link VArgs (OContains (str "x")) [ADisr DPass]) []], [IdOne 1], [ADisr DBlock].
+  eexists. eexists. eexists. exists w_req.
+  split; [vm_compute; reflexivity|]. split; [reflexivity|]. split; [vm_compute; reflexivity|].
+  split; [vm_compute; reflexivity|]. vm_compute. discriminate.
+Qed.
+
+(* ctl:ruleRemoveTargetById=1;REQUEST_HEADERS:/^X-Foo/ : the regex is not case-folded by the ctl,
+   the same exclusion written into the rule is *)
+Definition wrx_src (with_ctl : bool) : list item_src :=
+  [ SRule 10 1 (w_link VMethod OAlways
+                  (ADisr DPass :: if with_ctl then [ACtl (CRmTargetId (IdOne 1) VHeaders (KRx (str "^X-Foo")))] else [])) [];
+    SRule 1 2 (w_link VHeaders (OContains (str "x9")) [ADisr DDeny]) [] ].
+
+Lemma ctl_target_regex_case_refuted :
+  exists dflt c1 c2 rq,
+    cf_compile dflt (wrx_src true) = Some c1 /\
+    cf_compile dflt (map (src_ctl_target (fun id => id =? 1) VHeaders (KRx (str "^X-Foo"))) (wrx_src false)) = Some c2 /\
+    cf_outcome simple_rx c1 rq <> cf_outcome simple_rx c2 rq.
+Proof.
+  exists w_dflt. eexists. eexists. exists w_req.
+  split; [vm_compute; reflexivity|]. split; [vm_compute; reflexivity|]. vm_compute. discriminate.
+Qed.
+
+(* non-vacuity of the guards: a zero-free range update with a disruptive action, on a rule set with a chain *)
+Example update_action_guard_instance :
+  exists c c', cf_compile w_dflt w0_src = Some c /\
+    forallb spec_zero_free [IdRange 5 6; IdOne 7] = true /\ no_block [ADisr DDeny; AStatus 500] = true /\
+    cf_apply (DUpdActionById [IdRange 5 6; IdOne 7] [ADisr DDeny; AStatus 500]) c = Some c' /\
+    cf_outcome simple_rx c' w_req = ([(5, [(VMethod, [], str "GET")])], Some (500, 5, DDeny)).
+Proof.
+  eexists. eexists. split; [vm_compute; reflexivity|]. split; [reflexivity|]. split; [reflexivity|].
+  split; vm_compute; reflexivity.
+Qed.
